@@ -72,3 +72,149 @@ func vxH_C19_limits() {
 	o3, k3, v3 := decodeOpKeyLenValLen(seg.kvs[n0])
 	vxAssert("following-op-decodes", o3 == OperationSet && k3 == 1 && v3 == 1)
 }
+
+func init() {
+	vxRegister("vxH_C19_alloc", vxH_C19_alloc)
+	vxRegister("vxH_C19_persistLoad", vxH_C19_persistLoad)
+	vxRegister("vxH_C19_deferredChild", vxH_C19_deferredChild)
+}
+
+// vxH_C19_alloc: a batch built with Alloc + AllocSet/AllocDel/AllocMerge
+// (key and value cut from one allocation, as documented) reads exactly like
+// the batch built with Set/Del/Merge, for every probe key.
+func vxH_C19_alloc() {
+	kl, vl := 1, 1
+	n := 1 + vxChoose(2)
+	ents := vxNewBatchEnts(n, kl, vl, vxOpsAll)
+	mk := func() (*collection, Batch) {
+		ci, _ := NewCollection(CollectionOptions{MergeOperator: vxAppendMO{}})
+		c := ci.(*collection)
+		b, err := c.NewBatch(n, n*(kl+vl))
+		vxAssert("newbatch-ok", err == nil)
+		return c, b
+	}
+	c1, b1 := mk()
+	vxFillBatch(b1, ents)
+	c2, b2 := mk()
+	used := 0
+	for _, e := range ents {
+		kb, vb := vxKeyBytes(e.k), vxValBytes(e.v)
+		used += len(kb) + len(vb)
+		buf, err := b2.Alloc(len(kb) + len(vb))
+		vxAssert("alloc-ok", err == nil)
+		copy(buf, kb)
+		copy(buf[len(kb):], vb)
+		ak, av := buf[:len(kb)], buf[len(kb):]
+		if e.op == OperationSet {
+			err = b2.AllocSet(ak, av)
+		} else if e.op == OperationDel {
+			err = b2.AllocDel(ak)
+		} else {
+			err = b2.AllocMerge(ak, av)
+		}
+		vxAssert("alloc-op-ok", err == nil)
+	}
+	_, aerr := b2.Alloc(n*(kl+vl) - used + 1)
+	vxAssert("alloc-beyond-capacity-rejected", aerr == ErrAllocTooLarge)
+	vxAssert("exec1-ok", c1.ExecuteBatch(b1, WriteOptions{}) == nil)
+	vxAssert("exec2-ok", c2.ExecuteBatch(b2, WriteOptions{}) == nil)
+	K := vxNewKey(kl)
+	kb := vxKeyBytes(K)
+	s1, _ := c1.Snapshot()
+	s2, _ := c2.Snapshot()
+	g1, e1 := s1.Get(kb, ReadOptions{})
+	g2, e2 := s2.Get(kb, ReadOptions{})
+	vxAssert("gets-ok", e1 == nil && e2 == nil)
+	vxObserveBytes("plain", g1)
+	vxObserveBytes("alloc", g2)
+	vxAssert("alloc-batch-reads-like-plain-batch", (g1 == nil) == (g2 == nil) && vxBytesEq(g1, g2))
+	vxAssert("plain-batch-matches-fold", vxFoldIs(g1, vxRefFold(K, ents)))
+	s1.Close()
+	s2.Close()
+}
+
+// vxH_C19_persistLoad: persistBasicSegment at a file position around page
+// boundaries followed by loadBasicSegment yields page-aligned,
+// non-overlapping regions and the same operation, key and value for every
+// entry - including the empty key, empty values and bytes 0x00 / 0xFF /
+// magic look-alikes (all bytes are symbolic).
+func vxH_C19_persistLoad() {
+	kl, vl := 2, 1
+	n := 1 + vxChoose(2)
+	ents := vxNewEnts(n, kl, vl, vxOpsAll)
+	seg, _ := newSegment(n, n*vxStride)
+	for _, e := range ents {
+		seg.mutate(e.op, vxKeyBytes(e.k), vxValBytes(e.v))
+	}
+	fs := vxNewFS()
+	f, err := fs.openFile(fs.dir+"/data-0000000000000001.moss", 0x42 /* O_RDWR|O_CREATE */, 0600)
+	vxAssert("create-ok", err == nil)
+	positions := []int64{0, 1, 4095, 4096, 4097, 8191}
+	pos := positions[vxChoose(len(positions))]
+	if pos > 0 {
+		f.WriteAt(make([]byte, pos), 0)
+	}
+	sloc, perr := persistBasicSegment(seg, f, pos, nil)
+	vxAssert("persist-ok", perr == nil)
+	vxAssert("kvs-page-aligned", sloc.KvsOffset%4096 == 0 && int64(sloc.KvsOffset) >= pos)
+	vxAssert("buf-page-aligned", sloc.BufOffset%4096 == 0)
+	vxAssert("regions-do-not-overlap", sloc.KvsOffset+sloc.KvsBytes <= sloc.BufOffset)
+	// load it back through the real footer machinery
+	foot := &Footer{refs: 1, SegmentLocs: SegmentLocs{sloc}}
+	fref := &FileRef{file: f, refs: 1}
+	so := vxStoreOptions(fs)
+	lerr := foot.loadSegments(&so, fref)
+	vxAssert("load-ok", lerr == nil)
+	loaded := foot.ss.a[0].(*segment)
+	vxAssert("same-number-of-entries", loaded.Len() == n)
+	for i, e := range ents {
+		op, k, v := loaded.getOperationKeyVal(i)
+		vxAssert("op-round-trips", op == e.op)
+		vxAssert("key-round-trips", vxKeyEq(vxKeyOf(k), e.k))
+		vxAssert("value-round-trips", vxValIs(v, e.v))
+		vxAssert("loaded-slices-not-nil", k != nil && v != nil)
+	}
+	foot.Close()
+}
+
+// vxH_C19_deferredChild: DeferredSort on/off and a batch whose operations
+// may all sit in a child collection (two keys in arbitrary order): reads
+// of parent and child equal the oracle, iteration is in bytewise order.
+func vxH_C19_deferredChild() {
+	kl, vl := 1, 1
+	ci, _ := NewCollection(CollectionOptions{DeferredSort: vxChoose(2) == 1})
+	c := ci.(*collection)
+	c.Start()
+	b, err := c.NewBatch(2, 8)
+	vxAssert("newbatch-ok", err == nil)
+	var parent []vxEnt
+	if vxChoose(2) == 1 {
+		parent = vxNewBatchEnts(1, kl, vl, vxOpsSetDel)
+		vxFillBatch(b, parent)
+	}
+	cb, cerr := b.NewChildCollectionBatch("c", BatchOptions{TotalOps: 2, TotalKeyValBytes: 8})
+	vxAssert("childbatch-ok", cerr == nil)
+	child := vxNewBatchEnts(2, kl, vl, vxOpsSetDel)
+	vxFillBatch(cb, child)
+	vxAssert("exec-ok", c.ExecuteBatch(b, WriteOptions{}) == nil)
+	if vxChoose(2) == 1 {
+		c.NotifyMerger("mergeAll", true)
+	}
+	K := vxNewKey(kl)
+	kb := vxKeyBytes(K)
+	snap, serr := c.Snapshot()
+	vxAssert("snapshot-ok", serr == nil)
+	pg, perr := snap.Get(kb, ReadOptions{})
+	vxAssert("parent-get-ok", perr == nil)
+	vxAssert("parent-content", vxGotIs(pg, vxRefGet(K, parent)))
+	cs, cserr := snap.ChildCollectionSnapshot("c")
+	vxAssert("child-snapshot-ok", cserr == nil && cs != nil)
+	cg, cgerr := cs.Get(kb, ReadOptions{})
+	vxAssert("child-get-ok", cgerr == nil)
+	vxObserveBytes("child-get", cg)
+	vxAssert("child-content", vxGotIs(cg, vxRefGet(K, child)))
+	vxCheckIteration("child", cs, [][]vxEnt{child})
+	cs.Close()
+	snap.Close()
+	c.Close()
+}
